@@ -212,4 +212,11 @@ def build(tier, repo):
     loop = sc.main_loop(cl)
     rc.offsets_rule(r5, w, [("coneprog", "conelp")], node_filter=lambda n: getattr(n, "lineno", 10**9) < loop.lineno)
     r5.require(12)
+
+    r6 = chk.rule("C06-R6", "the KKT factories behind the solver names assemble the same reduced matrix: symmetrisation after the last "
+                            "lower-triangular contribution, work matrices fully redefined per factorisation",
+                  "every KKT solver name the entry point accepts gives the same answer")
+    from .C07 import factory_state_rule
+    factory_state_rule(r6, w)
+    r6.require(6)
     return chk
